@@ -3,6 +3,8 @@ package conc
 import (
 	"context"
 	"fmt"
+	"os"
+	"strings"
 	"runtime"
 	"sort"
 
@@ -27,7 +29,9 @@ func fpRelevant(prop string, name string) bool {
 	switch prop {
 	case "C06":
 		return len(name) > 4 && name[:4] == "fpTx"
-	default: // C05, C16: block manager and downloader
+	case "C05": // block manager, downloader and the node manager's sync thread
+		return len(name) > 4 && (name[:4] == "fpBd" || name[:4] == "fpBm" || name[:4] == "fpNm")
+	default: // C16: block manager and downloader
 		return len(name) > 4 && (name[:4] == "fpBd" || name[:4] == "fpBm")
 	}
 }
@@ -67,6 +71,14 @@ func RunFailpoints(prop, tier string, seed int64) int {
 				terms[n] = t
 			}
 		}
+		if v := os.Getenv("VERIF_FP_TERMS"); v != "" { // debugging aid: "name=terms;name=terms"
+			terms = map[string]string{}
+			for _, kv := range strings.Split(v, ";") {
+				if i := strings.Index(kv, "="); i > 0 {
+					terms[kv[:i]] = kv[i+1:]
+				}
+			}
+		}
 		if len(terms) == 0 && len(names) > 0 {
 			terms[names[rng.Intn(len(names))]] = "sleep(1)"
 		}
@@ -96,6 +108,9 @@ func RunFailpoints(prop, tier string, seed int64) int {
 	}
 	run.Extra("failpoints", map[string]interface{}{"compiled_in": fp.List(), "used_by_this_check": names, "rounds": rounds,
 		"terms_per_round": armedLog, "times_fired": rel})
+	if prop == "C05" {
+		run.Extra("observed", map[string]int64{"scenarios": o5.cases, "block_requests": o5.requests, "restart_flag_set_while_no_round_running": o5.lostTrigger})
+	}
 	if total == 0 {
 		run.Inconclusive(fmt.Sprintf("no failpoint fired (%d compiled in)", len(names)))
 	}
